@@ -368,6 +368,7 @@ func main() {
 	chParams = vh.NewChannel("async.params", "the parameters GrpcV1.StartAsyncSearch(request) persists (<id>.info: From, To, Limit, HistInterval, WithTotal, Order, retention, expiry) vs SV.Async.asyncParams, requests at the integer edges; an undeclared Order panics")
 	chPF := vh.NewChannel("proxy.async.fetch", "real search.Ingestor.FetchAsyncSearchResult over scripted stores (NotFound / Unavailable / other error / answer with done flag per replica) vs SV.ProxyAsync.proxyFetch; non-trivial = >1 shard answering")
 	chPS := vh.NewChannel("proxy.async.start", "real search.Ingestor.StartAsyncSearch over scripted stores: replicas called and success vs SV.ProxyAsync.proxyStart")
+	chPH := vh.NewChannel("api.async.handler", "real proxyapi gRPC handler FetchAsyncSearchResult(Size, Offset) over the real ingestor over scripted stores: done flag, one document entry per merged ID, histogram - or panic / error - vs SV.ProxyAsync.handlerFetch (at the re-extracted makeProtoDocsNilSafe / proxyAsyncPaginates); non-trivial = an answer with IDs")
 	orcPD := vh.NewOracle("proxy.async.done", "every shard has one replica that accepted the search: an answer exists only if every such replica answered, Done only if all are done, and every shard's IDs are in the merged result; non-trivial = a shard's replica is unreachable")
 	orcAPI := vh.NewOracle("async.api", "the proxy's gRPC handlers (StartAsyncSearch, FetchAsyncSearchResult with Size/Offset) over the real ingestor and a real store: the done result's ids (one document entry per id), histogram and aggregations equal ComplexSearch's for the same query; non-trivial = Size > 0")
 	orcSys := vh.NewOracle("async.system", "real FracManager+AsyncSearcher, process killed after the k-th atomic write and restarted: fetched result == synchronous SearchDocs (ids, histogram, aggregations); non-trivial = a crash point inside the run and >1 fraction")
@@ -389,6 +390,8 @@ func main() {
 				chPF.Add(l, runPFetch(l), true, "replay")
 			case "pstart":
 				chPS.Add(l, runPStart(l), true, "replay")
+			case "hfetch":
+				chPH.Add(l, runHFetch(l), true, "replay")
 			case "async", "asyncconc", "asyncapi", "asyncapih":
 				sysLines = append(sysLines, l)
 			}
@@ -421,7 +424,7 @@ func main() {
 			}
 			chFetch.Add(line, runFetch(line), dup, fmt.Sprintf("histMode=%d", histMode), "dup="+b(dup), fmt.Sprintf("files=%d", len(qs)))
 		}
-		genProxyAsync(gen{vh.NewRNG(o.Seed + 99)}, chPF, chPS, orcPD, rep, o.Pick(400, 5000))
+		genProxyAsync(gen{vh.NewRNG(o.Seed + 99)}, chPF, chPS, chPH, orcPD, rep, o.Pick(400, 5000))
 		sysLines = genSys(g, o)
 	}
 	var apihLines []string
@@ -440,6 +443,7 @@ func main() {
 	rep.AddChannel(chParams, o.Driver)
 	rep.AddChannel(chPF, o.Driver)
 	rep.AddChannel(chPS, o.Driver)
+	rep.AddChannel(chPH, o.Driver)
 	rep.AddOracle(orcPD)
 	rep.AddOracle(orcAPI)
 	rep.AddOracle(orcSys)
@@ -1248,6 +1252,9 @@ func runSys(lines []string, orc *vh.Oracle, rep *vh.Report, o vh.Opts) {
 	}
 	defer os.RemoveAll(root)
 	for i, line := range lines {
+		if strings.HasPrefix(line, "asyncapih ") {
+			continue // handled by runAPIH
+		}
 		m := kv(strings.Fields(line)[1:])
 		dir := filepath.Join(root, fmt.Sprintf("c%d", i))
 		os.MkdirAll(dir, 0o755)
